@@ -310,6 +310,50 @@ def requestHeader (pieces : List Bytes) : Except String PyStr :=
   | .ok buf => chanHeader buf
   | .error e => .error e
 
+/-! ## addProcessGroup: a group whose construction fails
+
+  `supervisord.add_process_group(config)` is the seam: it adds the group (`added`), finds it active
+  already (`already`), or an exception of some class escapes it (`raised`: the socket of an
+  fcgi-program cannot be bound → ValueError, the child log directory is gone → FileNotFoundError …).
+  Which classes the method catches and which fault it answers then is the generated
+  `addGroupCatches`; an exception no clause catches escapes the method — the HTTP 500 of the
+  property statement. -/
+
+inductive AddRes
+  | added
+  | already
+  | raised (exc : String)
+deriving DecidableEq, Repr
+
+/-- does `except <types>` catch an exception of class `exc`? (a class outside the table only by its own name) -/
+def catches (types : List String) (exc : String) : Bool :=
+  match excMro.lookup exc with
+  | some mro => types.any fun t => mro.contains t
+  | none => types.contains exc
+
+/-- `raise RPCError(Faults.<the one name>)` -/
+def raiseOne {σ ν : Type} : List String → Outcome σ ν
+  | [f] => raiseFault f
+  | _ => .raised "extraction"
+
+/-- the body of addProcessGroup after its gate; the state counts the groups added -/
+def addGroupBody {ν : Type} (vTrue : ν) (found : Bool) (construct : AddRes) (s : Nat) : Outcome Nat ν × Nat :=
+  if !found then (raiseOne addGroupUnknown, s)
+  else match construct with
+    | .added => (.value vTrue, s + 1)
+    | .already => (raiseOne addGroupAlready, s)
+    | .raised exc =>
+      match addGroupCatches.find? (fun h => catches h.1 exc) with
+      | some h => (raiseOne h.2, s)
+      | none => (.raised exc, s)
+
+/-- `SupervisorNamespaceRPCInterface.addProcessGroup(name)` in mood `mood`: `found` = a configured
+    group has the name, `construct` = what `supervisord.add_process_group` does for it -/
+def addProcessGroup {ν : Type} (vTrue : ν) (mood : Int) (found : Bool) (construct : AddRes) (s : Nat) : Outcome Nat ν × Nat :=
+  match gateTable.lookup "addProcessGroup" with
+  | some g => runGated g mood 0 (fun s => (.value vTrue, s)) (addGroupBody vTrue found construct) s
+  | none => (.raised "extraction", s)
+
 /-! ## line protocol
   case rpc <entry>*        entry = <hexns>  |  <hexns>:<hexattr>:o  |  <hexns>:<hexattr>:m<min>,<max>,<beh>
                            beh   = v<id> | f<code> | x | t | d<k>,<final>      final = v<id> | f<code> | x
@@ -320,6 +364,7 @@ def requestHeader (pieces : List Bytes) : Except String PyStr :=
         collect <hex piece|->,...           → text <code points,..|-> | bytes <hex> | raises <exception>    (the body collector)
         header <hex piece|->,...            → the same for the header buffer
         decode <hex>                        → text <code points,..|-> | raises UnicodeDecodeError
+        addgroup <mood> <found 0|1> <ok1|ok0|raise:<class>|->   → value true | fault <c> | raised <class>
 -/
 abbrev Log := List String
 
@@ -467,6 +512,21 @@ def rpcOps (tbl : Table (Method Log Int)) (s : Log) : List String → List Strin
         let f := if kind = "d" then deferredResponse t else immediateResponse t
         s!"cl={f.contentLength} wire={hexOfBytes f.wire}" :: rpcOps tbl s rest
       | none => "bad-op" :: rpcOps tbl s rest
+    | ["addgroup", mood, found, c] =>
+      let cons : Option AddRes :=
+        if c = "ok1" then some .added else if c = "ok0" then some .already
+        else if c = "-" then some .already
+        else if c.startsWith "raise:" then some (.raised (c.drop 6).toString) else none
+      (match mood.toInt?, cons with
+       | some mood, some cons =>
+         if found = "0" || found = "1" then
+           match (addProcessGroup (1 : Int) mood (found == "1") cons 0).1 with
+           | .value _ => "value true"
+           | .fault c => s!"fault {c}"
+           | .raised w => s!"raised {w}"
+           | .deferred _ => "deferred"
+         else "bad-op"
+       | _, _ => "bad-op") :: rpcOps tbl s rest
     | ["collect", ps] =>
       (match parsePieces ps with
        | some pieces => showPyRes (requestBody pieces)
